@@ -24,6 +24,7 @@ class FieldRec:
         self.ignore_critical = False
         self.is_string = False
         self.fixed_len = None
+        self.base_type = None   # ast of val_base_type (UintField) when it is not int
         self.owner = None
 
     @property
@@ -111,6 +112,8 @@ class Models:
             if k == 'UintField':
                 fl = self._arg(call, 2, 'fixed_len')
                 r.fixed_len = self.const_int(m, fl) if fl is not None else None
+                bt = self._arg(call, 3, 'val_base_type')
+                r.base_type = bt if bt is not None and ast.unparse(bt) != 'int' else None
             if k == 'BytesField':
                 s = self._arg(call, 2, 'is_string')
                 r.is_string = bool(isinstance(s, ast.Constant) and s.value)
